@@ -85,7 +85,9 @@ func (g *G) textParts() []Part {
 				// an interpolation spanning two, three or four template lines
 				ps[len(ps)-1].Expr = g.pick("f2(s0,\n\t\t\ts1)", "f2(\n\t\t\ts0,\n\t\t\ts1)", "f2(\n\t\t\ts0,\n\t\t\ts1,\n\t\t)",
 					// with an empty line inside (after the first line, in the middle, two in a row)
-					"f2(s0,\n\n\t\t\ts1)", "f2(\n\t\t\ts0,\n\n\n\t\t\ts1,\n\t\t)")
+					"f2(s0,\n\n\t\t\ts1)", "f2(\n\t\t\ts0,\n\n\n\t\t\ts1,\n\t\t)",
+					// the expression starts on the line after the opening brace
+					"\n\t\t\tf2(s0, s1)", "\n\n\t\t\tf2(s0,\n\t\t\t\ts1)")
 			}
 		case 4:
 			switch g.R.Intn(4) {
@@ -151,7 +153,7 @@ func (g *G) attrs(n *Node) {
 			a.Kind = ADynamic
 			a.Expr = g.strFrag()
 			if g.O.MultiLineFrags && g.chance(3) {
-				a.Expr = g.pick("f2(s0,\n\t\t\t\ts1)", "f2(\n\t\t\t\ts0,\n\t\t\t\ts1,\n\t\t\t)", "f2(s0,\n\n\t\t\t\ts1)", "f2(\n\n\t\t\t\ts0,\n\t\t\t\ts1,\n\n\t\t\t)")
+				a.Expr = g.pick("f2(s0,\n\t\t\t\ts1)", "f2(\n\t\t\t\ts0,\n\t\t\t\ts1,\n\t\t\t)", "f2(s0,\n\n\t\t\t\ts1)", "f2(\n\n\t\t\t\ts0,\n\t\t\t\ts1,\n\n\t\t\t)", "\n\t\t\t\tf2(s0, s1)")
 			}
 		case 2:
 			a.Kind = ADynamic
@@ -215,7 +217,7 @@ func (g *G) elemHead() *Node {
 	g.attrs(n)
 	if g.O.MultiLineFrags && g.chance(4) {
 		// a fragment spanning lines followed by another fragment on the same generated line
-		n.ObjRef = g.pick("pickObj(o0,\n\t\t\t\to0)", "pickObj(\n\t\t\t\to0,\n\t\t\t\to0,\n\t\t\t)", "pickObj(o0,\n\n\t\t\t\to0)")
+		n.ObjRef = g.pick("pickObj(o0,\n\t\t\t\to0)", "pickObj(\n\t\t\t\to0,\n\t\t\t\to0,\n\t\t\t)", "pickObj(o0,\n\n\t\t\t\to0)", "\n\t\t\t\tpickObj(o0, o0)")
 		if n.ClassAttr == "" && len(n.ClassExprs) == 0 {
 			n.ClassExprs = []string{"s1"}
 		}
@@ -482,6 +484,11 @@ func GenFile(r *rand.Rand, o Opts, nLayouts, nPages int) *File {
 		g.allowChildren = true
 		g.usedChildren = false
 		body := g.Block(g.O.MaxDepth - 1)
+		if o.RenderHeavy && !g.usedChildren && i%3 != 2 {
+			// two layouts in three have a children slot for certain (the random walk reaches one only now and then)
+			body = append(body, &Node{Kind: KElem, Tag: "section", Kids: []*Node{{Kind: KChildren}}})
+			g.usedChildren = true
+		}
 		f.Templates = append(f.Templates, &Template{Name: fmt.Sprintf("L%d", i), Sig: Sig, Body: body, UsesChildren: g.usedChildren})
 	}
 	g.layoutsAvail = nLayouts
@@ -504,6 +511,23 @@ func GenFile(r *rand.Rand, o Opts, nLayouts, nPages int) *File {
 			f.Templates = append(f.Templates, &Template{Name: fmt.Sprintf("Seq%d", k), Sig: Sig, Body: []*Node{
 				with(p("first block")), without(),
 				{Kind: KElem, Tag: "div", Kids: []*Node{with(with(p("inner")), without()), without()}},
+				p("end"),
+			}})
+		}
+	}
+	if o.RenderHeavy && o.FailSites {
+		// a site that can fail inside the children block handed to a layout (one and two levels deep)
+		for k := 0; k < nLayouts; k++ {
+			if !f.Templates[k].UsesChildren {
+				continue
+			}
+			callee := fmt.Sprintf("L%d%s", k, Args)
+			p := func(s string) *Node { return &Node{Kind: KElem, Tag: "p", Inline: &Node{Kind: KText, Parts: []Part{{Static: s}}}} }
+			fail := func() *Node { return &Node{Kind: KScript, Expr: g.pick("fe1(s0)", "fe2(s1)"), Unescaped: true} }
+			f.Templates = append(f.Templates, &Template{Name: fmt.Sprintf("FailIn%d", k), Sig: Sig, Body: []*Node{
+				{Kind: KRender, Callee: callee, Kids: []*Node{p("before"), fail(), p("after")}},
+			}}, &Template{Name: fmt.Sprintf("FailDeep%d", k), Sig: Sig, Body: []*Node{
+				{Kind: KRender, Callee: callee, Kids: []*Node{{Kind: KElem, Tag: "div", Kids: []*Node{{Kind: KRender, Callee: callee, Kids: []*Node{fail()}}}}}},
 				p("end"),
 			}})
 		}
